@@ -110,6 +110,19 @@ def run(ctx):
                      {"mx": mx, "cosmo_params": cp, "wdm_model": wmodel})
             if not (np.all(ratio > 0) and np.all(ratio <= 1 + 1e-12) and np.all(np.diff(ratio) <= 1e-15)):
                 viol("TransferWDM/ratio-range", "T_wdm/T_cdm is not in (0,1] or not decreasing with k", {"mx": mx})
+        # very light particles and small scales: the suppression is tiny but still the documented one (compared in log space)
+        for mx_ in (0.1, 0.15, 0.3):
+            bb_ = dict(transfer_model="EH", lnk_min=-4.0, lnk_max=float(np.log(2e4)), dlnk=0.25)
+            tw_ = TransferWDM(wdm_mass=mx_, wdm_model="Viel05", **bb_)
+            tc_ = Transfer(**bb_)
+            lr_ = tw_._unnormalised_lnT - tc_._unnormalised_lnT
+            lam_ = 0.049 * mx_ ** -1.11 * ((tw_.cosmo.Om0 - tw_.cosmo.Ob0) / 0.25) ** 0.11 * (tw_.cosmo.h / 0.7) ** 1.22
+            lS_ = (-5.0 / 1.12) * np.log1p((lam_ * tw_.k) ** (2 * 1.12))
+            nfw += 1
+            if not (np.all(np.isfinite(lr_)) and np.allclose(lr_, lS_, rtol=1e-9, atol=1e-12) and np.all(np.diff(lr_) < 0)):
+                i_ = int(np.nanargmax(np.abs(lr_ - lS_)))
+                viol("TransferWDM/ratio-is-suppression/log-space", f"TransferWDM(Viel05, mx={mx_} keV): ln(T_wdm/T_cdm) = {lr_[i_]:.6g} at k={tw_.k[i_]:.4g} h/Mpc, the documented suppression gives {lS_[i_]:.6g} (or the ratio stops decreasing with k)",
+                     {"mx": mx_, "k": float(tw_.k[i_])})
         # monotone in particle mass, high masses unaffected, convergence to CDM
         mb = dict(base, Mmin=8, Mmax=15, dlog10m=0.5)
         for wmodel in ("Viel05", "Bode01"):
